@@ -29,7 +29,7 @@ THEOREMS = _theorems()
 
 OUTCOMES = ['ret', 'exit', 'kbd', 'exc', 'excin']       # excin: raises inside a profiled function
 COQ_OUTCOME = dict(ret='Return', exit='SysExit', kbd='KbdInt', exc='Exc', excin='Exc')
-# ids of the five defects repaired in /repo (204c2e5, d567ae1, f436ae3, 2d3e878, a77d816).  The classifier
+# ids of the six defects repaired in /repo (204c2e5, d567ae1, f436ae3, 2d3e878, a77d816, fcd15c8).  The classifier
 # still recognises their signatures so that a regression is named; they are 'fixed' in
 # known_findings.json, which suppresses nothing: any failing clause is a VIOLATION.
 FINDINGS = {
@@ -38,7 +38,7 @@ FINDINGS = {
     4: 'C19-profile-unusable',
     16: 'C19-interval-timer-leak',
     8: 'C19-autoprofile-leaves-profiler-enabled',      # repaired by a77d816
-    108: 'C19-program-enable-left-on',                  # -l: the program's own profile.enable() is never undone
+    108: 'C19-program-enable-left-on',                  # repaired by fcd15c8
 }
 BITNAMES = {1: 'sys.argv', 2: 'sys.path', 4: 'profile decorator', 8: 'profiler left enabled', 16: 'helper thread'}
 
